@@ -241,7 +241,7 @@ theorem step_x86_end {os : Os} {w : World} {wins : List (List Win.Rec)} {mem : M
     | none => simp [hfp] at hrec
     | some f0 =>
       simp only [hfp, Bool.and_eq_true, decide_eq_true_eq, beq_iff_eq] at hrec
-      obtain ⟨⟨⟨_, hr1⟩, hr2⟩, hlt⟩ := hrec
+      obtain ⟨⟨⟨⟨_, hr1⟩, hr2⟩, hlt⟩, _⟩ := hrec
       obtain ⟨h1, h2, _⟩ := hvs.fp_some hfp
       have hlt' : f0 < U32MAX - 8 := by
         have hlt2 := of_decide_eq_true hlt
